@@ -402,7 +402,10 @@ Fixpoint html_element (c : oconfig) (parent : option anode) (node : anode) (inde
                                 else st in
                       let st := push_tokens c value st in
                       if inner
-                      then map_out (fun o => let o' := os_add_level o (-1) in os_push_newline_int f o' (os_level o')) st
+                      then match an_children node with
+                           | [] => map_out (fun o => let o' := os_add_level o (-1) in os_push_newline_int f o' (os_level o')) st
+                           | _ => map_out (fun o => os_add_level o (-1)) st
+                           end
                       else st
                   | _ => st
                   end in
